@@ -234,7 +234,9 @@ def _law_checks(spec, ops, steps, fails, stats=None):
         if st["err"] is not None or V <= 0 or T <= 0 or p < 0 or cap <= 0:
             continue
         if p == 0:
-            if st["rate"] != 0 or st["charge"] != b["charge"] or st["power"] != 0:
+            # DESIGN §4: numbers with the 1e-9 slack — a battery filled to capacity can hold capacity + 1 ulp, and
+            # min(0, max, (capacity − charge)·…) is then −1e-14 A, not 0 (rounding, not a delivery)
+            if abs(st["rate"]) > 1e-9 or not close(st["charge"], b["charge"]) or abs(st["power"]) > 1e-9:
                 fails.append({"kind": "zero_pilot_delivers", "detail": f"{w}: rate {st['rate']!r}, charge {b['charge']!r} -> {st['charge']!r}, power {st['power']!r}"})
             continue
         if noise > 0:
